@@ -63,10 +63,11 @@ VARIABLES
   calls,    \* node -> number of invocations of its map method
   kcalls,   \* key -> number of Enter with that key
   uses,     \* history: set of <<key, result>> ever handed to a caller
+  made,     \* history: new object -> the node whose map method created it
   err,      \* "none" | "collision" | "dup"
   started   \* the top-level call has been issued
 
-vars == <<g, stack, cache, cexpr, pool, ocl, sig, calls, kcalls, uses, err, started>>
+vars == <<g, stack, cache, cexpr, pool, ocl, sig, calls, kcalls, uses, made, err, started>>
 
 -----------------------------------------------------------------------------
 (* The space of instances *)
@@ -178,7 +179,7 @@ Enter(n, x, p) ==
                THEN [kcalls EXCEPT ![KeyOf(n, x)] = @ + 1]
                ELSE kcalls @@ (KeyOf(n, x) :> 1)
   /\ started' = TRUE
-  /\ UNCHANGED <<g, cache, cexpr, pool, ocl, sig, uses, err>>
+  /\ UNCHANGED <<g, cache, cexpr, pool, ocl, sig, uses, made, err>>
 
 Hit(n, x, p) ==
   /\ err = "none" /\ V.cached
@@ -187,7 +188,7 @@ Hit(n, x, p) ==
   /\ stack' = Mark(stack, p, cache[KeyOf(n, x)])
   /\ uses' = uses \cup {<<KeyOf(n, x), cache[KeyOf(n, x)]>>}
   /\ started' = TRUE
-  /\ UNCHANGED <<g, cache, cexpr, pool, ocl, sig, calls, kcalls, err>>
+  /\ UNCHANGED <<g, cache, cexpr, pool, ocl, sig, calls, kcalls, made, err>>
 
 Collide(n, x, p) ==
   /\ err = "none" /\ V.cached /\ V.errcol
@@ -195,7 +196,7 @@ Collide(n, x, p) ==
   /\ cexpr[KeyOf(n, x)] # n
   /\ err' = "collision"
   /\ started' = TRUE
-  /\ UNCHANGED <<g, stack, cache, cexpr, pool, ocl, sig, calls, kcalls, uses>>
+  /\ UNCHANGED <<g, stack, cache, cexpr, pool, ocl, sig, calls, kcalls, uses, made>>
 
 \* positions of the top frame whose visit is required before it may return
 \* (all of them, unless the instance carries documented exemptions)
@@ -245,11 +246,12 @@ ReturnT(raw, rawcl, rawsig, fsame) ==
   /\ LET f == Top IN
      IF V.errdup /\ IsCreatedDup(f, raw, rawcl, fsame)
      THEN /\ err' = "dup"
-          /\ UNCHANGED <<g, stack, cache, cexpr, pool, ocl, sig, calls, kcalls, uses, started>>
+          /\ UNCHANGED <<g, stack, cache, cexpr, pool, ocl, sig, calls, kcalls, uses, made, started>>
      ELSE /\ Store(f, Stored(raw, rawcl))
           /\ pool' = IF InPool(rawcl) THEN pool ELSE (rawcl :> raw) @@ pool
           /\ ocl' = IF InPool(rawcl) \/ raw \in DOMAIN ocl THEN ocl ELSE (raw :> rawcl) @@ ocl
           /\ sig' = IF rawcl \in DOMAIN sig THEN sig ELSE (rawcl :> rawsig) @@ sig
+          /\ made' = IF InPool(rawcl) \/ raw \in DOMAIN ocl THEN made ELSE (raw :> f.node) @@ made
           /\ UNCHANGED <<g, calls, kcalls, err, started>>
 
 ReturnTransform == stack # <<>> /\ LET pr == Predict(Top) IN ReturnT(pr.raw, pr.cl, pr.s, TRUE)
@@ -260,7 +262,7 @@ ReturnO(res) ==
   /\ err = "none" /\ stack # <<>> /\ V.family # "transform"
   /\ AllDone(Top)
   /\ Store(Top, res)
-  /\ UNCHANGED <<g, pool, ocl, sig, calls, kcalls, err, started>>
+  /\ UNCHANGED <<g, pool, ocl, sig, calls, kcalls, made, err, started>>
 
 ReturnOther ==
   /\ stack # <<>>
@@ -297,6 +299,7 @@ InitFor(n, ch, rep, cls, need, chg, ex, v) ==
   /\ calls = [i \in 1..n |-> 0]
   /\ kcalls = <<>>
   /\ uses = {}
+  /\ made = <<>>
   /\ err = "none"
   /\ started = FALSE
 
@@ -367,13 +370,16 @@ CollisionReported ==
         \A a, b \in Nodes : a # b => KeyOf(a, 0) # KeyOf(b, 0)
   /\ (err = "collision") => V.errcol /\ (V.key = "expr") /\ HasDups
 
-\* a gratuitous equal copy is reported when err_on_created_duplicate
+\* a gratuitous equal copy is reported when err_on_created_duplicate: no
+\* object that a map method created (and the cache kept) is equal to the node
+\* it was created for while all of that node's children were mapped to
+\* themselves.  (An unchanged node may still be REPLACED by an equal object
+\* that was created earlier for another node -- first seen wins.)
 DuplicateReported ==
   /\ (V.family = "transform" /\ V.errdup /\ ~V.extra) =>
-        \A k \in DOMAIN cache :
-           LET n == cexpr[k] IN
-           ~(/\ cache[k] \notin Nodes
-             /\ ocl[cache[k]] = Rep[n]
+        \A o \in DOMAIN made :
+           LET n == made[o] IN
+           ~(/\ ocl[o] = ocl[n]
              /\ \A i \in 1..Len(Ch[n]) :
                    /\ KeyOf(Ch[n][i], 0) \in DOMAIN cache
                    /\ cache[KeyOf(Ch[n][i], 0)] = Ch[n][i])
